@@ -733,6 +733,11 @@ func generate(r *lib.Run) {
 		r.Do("h", g.history(1+g.rng.Intn(2), w)...)
 		r.Stat("class.minihandler", 1)
 	}
+	// hunt list of the ICMPv6 spoofer (StartHunt on a frame's address view, StopHunt, wake-up)
+	for i := 0; i < 20*scale; i++ {
+		r.Do("k6", g.huntHistory(1+g.rng.Intn(5))...)
+		r.Stat("class.hunt6", 1)
+	}
 	classes := []struct {
 		name  string
 		n     int
